@@ -187,7 +187,7 @@ fn main() {
             let mut g = Gen { rng: Rng::new(a.seed), ctr: 0, hist: Default::default() };
             for i in 0..a.n {
                 g.ctr = 0;
-                let src = g.program(6);
+                let src = g.program(if a.tier == "thorough" { 9 } else { 6 });
                 run_case(&format!("g{}", i), &src);
             }
             for (k, v) in g.hist.iter() { eprintln!("cov\t{}\t{}", k, v); }
